@@ -64,3 +64,32 @@ Theorem C16_write_result :
      run_with_rooms cf ins b oroom eroom = (o, e, if failed then GErrIo else g_result g).
 Proof. exact run_with_rooms_result. Qed.
 Print Assumptions C16_write_result.
+
+(* a read error never loses or alters what was already written: the events before the failure are a prefix of the events of the fault-free run *)
+From Jawk Require Import LocalityProofs.
+
+Theorem C16_read_error_prefix :
+  forall (cf : Go.cfg) (fname : option Base.str) (pre : list Base.byte) (rst : list Reader.ev)
+      (more : list Base.byte) (b : bool),
+    let evs_err := (List.map Reader.EB pre ++ Reader.EErr :: rst)%list in
+    let evs_ok := List.map Reader.EB (pre ++ more) in
+    exists tl : list Go.oev,
+      Go.g_events (Go.go cf ((fname, evs_ok) :: nil) b) =
+      (Go.g_events (Go.go cf ((fname, evs_err) :: nil) b) ++ tl)%list.
+Proof. exact go_read_error_events_prefix. Qed.
+Print Assumptions C16_read_error_prefix.
+
+Theorem C16_read_error_prefix_loop :
+  forall (cf : Go.cfg) (p : Go.printer) (sts : list (Chain.stage Expr.expr))
+      (nt : nat) (fname : option Base.str) (pre : list Base.byte) (rst : list Reader.ev)
+      (more : list Base.byte) (ss : list (Chain.sstate Expr.expr)) (idx infile : BinNums.N),
+    let evs_err := (List.map Reader.EB pre ++ Reader.EErr :: rst)%list in
+    let evs_ok := List.map Reader.EB (pre ++ more) in
+    exists tl : list Go.oev,
+      ev_of
+        (Go.read_input cf p sts nt (Go.input_fuel evs_ok) (Reader.mk_reader evs_ok) fname ss idx infile) =
+      (ev_of
+         (Go.read_input cf p sts nt (Go.input_fuel evs_err) (Reader.mk_reader evs_err) fname ss idx infile) ++
+       tl)%list.
+Proof. exact read_error_events_prefix. Qed.
+Print Assumptions C16_read_error_prefix_loop.
